@@ -370,11 +370,13 @@ fn cmd_replay(path: &str) -> i32 {
 fn events_of_case(case: &Case) -> Vec<String> {
     let (known, _) = load_known();
     if let Case::Staking { swarm, ops } = case {
-        let opts = StakingOpts { force_no_oracle: false, keep_events: true, known };
+        let opts = StakingOpts { force_no_oracle: false, keep_events: true, known: known.clone() };
         let (_, ev) = run_staking(swarm, Some(ops), None, &opts, "C19");
         ev.events
     } else {
-        vec![]
+        // non-staking cases have no event log: their outcome hash (accept/refuse decisions) stands in for it
+        let ev = eval_case(case, "C19", &known);
+        vec![format!("case outcome hash {}", ev.hash)]
     }
 }
 
